@@ -1,2 +1,184 @@
-import Dbg.Model.Export
 import Dbg.Model.CompressGraph
+import Dbg.Lemmas.WalkProofs
+/-! # C09 — Graph re-compression and node censoring are exact
+
+Proved so far for the model of `CompressFromGraph`: every walk only steps onto available nodes, removes them from the
+availability set and never repeats a node; hence a censored node (never available) is never merged into any output
+node, and every input node is consumed by at most one output node.  The characterisation of the result as the
+maximal unbranched paths of the surviving adjacencies (`C09_char`), no-dangling-extensions, payload and idempotence
+are executable predicates evaluated on the crate's result (partial). -/
+namespace CompressGraph
+open Compress (Seq Exts Node)
+open Walk (Dir rm mem_rm)
+open Graph
+variable {D : Type}
+
+/-- what a finished walk guarantees -/
+structure WalkOK (avail : List Nat) (p : List (Nat × Dir)) (avail' : List Nat) : Prop where
+  sub : ∀ x ∈ p, x.1 ∈ avail
+  rest : ∀ z, z ∈ avail' ↔ (z ∈ avail ∧ z ∉ p.map Prod.fst)
+  nodup : (p.map Prod.fst).Nodup
+
+theorem extendNode_ok (g : G D) (st : Bool) (join : D → D → Bool) (avail : List Nat) (cur : Nat) (dir : Dir)
+    (p : List (Nat × Dir)) (e : Exts) (a' : List Nat) (h : extendNode g st join avail cur dir = some (p, e, a')) :
+    WalkOK avail p a' := by
+  fun_induction extendNode g st join avail cur dir generalizing p e a' with
+  | case1 avail cur dir nx out hx hmem p0 e0 a0 hrec ih =>
+    simp only [Option.some.injEq, Prod.mk.injEq] at h
+    obtain ⟨rfl, rfl, rfl⟩ := h
+    have ok := ih p0 e0 a0 hrec
+    refine ⟨?_, ?_, ?_⟩
+    · intro x hx'
+      rcases List.mem_cons.mp hx' with rfl | hx'
+      · exact hmem
+      · exact (mem_rm.mp (ok.sub x hx')).1
+    · intro z
+      rw [ok.rest z, mem_rm]
+      simp only [List.map_cons, List.mem_cons, not_or]
+      constructor
+      · rintro ⟨⟨h1, h2⟩, h3⟩; exact ⟨h1, h2, h3⟩
+      · rintro ⟨h1, h2, h3⟩; exact ⟨⟨h1, h2⟩, h3⟩
+    · simp only [List.map_cons, List.nodup_cons]
+      refine ⟨?_, ok.nodup⟩
+      intro hin
+      obtain ⟨x, hx', rfl⟩ := List.mem_map.mp hin
+      exact (mem_rm.mp (ok.sub x hx')).2 rfl
+  | case2 avail cur dir nx out hx hmem hrec => simp at h
+  | case3 avail cur dir nx out hx hmem => simp at h
+  | case4 avail cur dir e1 hx =>
+    simp only [Option.some.injEq, Prod.mk.injEq] at h
+    obtain ⟨rfl, rfl, rfl⟩ := h
+    exact ⟨by simp, by simp, by simp⟩
+  | case5 avail cur dir hx => simp at h
+
+/-- the ids merged by one output node -/
+def ids (path : List (Nat × Dir)) : List Nat := path.map Prod.fst
+
+theorem buildNode_ok (g : G D) (st : Bool) (join : D → D → Bool) (reduce : D → D → D) (avail : List Nat) (seed : Nat)
+    (hs : seed ∈ avail) (nd : Node D) (path : List (Nat × Dir)) (a' : List Nat)
+    (h : buildNode g st join reduce avail seed = some (nd, path, a')) :
+    (∀ i ∈ ids path, i ∈ avail) ∧ (∀ z, z ∈ a' ↔ (z ∈ avail ∧ z ∉ ids path)) ∧ (ids path).Nodup ∧ seed ∈ ids path := by
+  unfold buildNode at h
+  cases hn : g.nodes[seed]? with
+  | none => simp [hn] at h
+  | some sn =>
+    simp only [hn] at h
+    cases hl : extendNode g st join (rm avail seed) seed .L with
+    | none => simp [hl] at h
+    | some rl =>
+      obtain ⟨lpath, lext, a2⟩ := rl
+      simp only [hl] at h
+      cases hr : extendNode g st join (rm a2 seed) seed .R with
+      | none => simp [hr] at h
+      | some rr =>
+        obtain ⟨rpath, rext, a3⟩ := rr
+        simp only [hr] at h
+        split at h
+        · rename_i dat sq _ _
+          simp only [Option.some.injEq, Prod.mk.injEq] at h
+          obtain ⟨_, rfl, rfl⟩ := h
+          have okl := extendNode_ok g st join _ _ _ _ _ _ hl
+          have okr := extendNode_ok g st join _ _ _ _ _ _ hr
+          have hids : ids ((lpath.map fun p => (p.1, p.2.flip)).reverse ++ [(seed, Dir.L)] ++ rpath)
+              = (lpath.map Prod.fst).reverse ++ [seed] ++ rpath.map Prod.fst := by
+            simp [ids, List.map_reverse, Function.comp_def]
+          rw [hids]
+          have l_in : ∀ i ∈ lpath.map Prod.fst, i ∈ avail ∧ i ≠ seed := by
+            intro i hi
+            obtain ⟨x, hx, rfl⟩ := List.mem_map.mp hi
+            exact mem_rm.mp (okl.sub x hx)
+          have r_in : ∀ i ∈ rpath.map Prod.fst, i ∈ avail ∧ i ≠ seed ∧ i ∉ lpath.map Prod.fst := by
+            intro i hi
+            obtain ⟨x, hx, rfl⟩ := List.mem_map.mp hi
+            have h1 := mem_rm.mp (okr.sub x hx)
+            have h2 := (okl.rest x.1).mp h1.1
+            exact ⟨(mem_rm.mp h2.1).1, h1.2, h2.2⟩
+          refine ⟨?_, ?_, ?_, by simp⟩
+          · intro i hi
+            simp only [List.mem_append, List.mem_reverse, List.mem_singleton] at hi
+            rcases hi with (hi | rfl) | hi
+            · exact (l_in i hi).1
+            · exact hs
+            · exact (r_in i hi).1
+          · intro z
+            rw [okr.rest z, mem_rm, okl.rest z, mem_rm]
+            simp only [List.mem_append, List.mem_reverse, List.mem_singleton, not_or]
+            constructor
+            · rintro ⟨⟨⟨⟨h1, h2⟩, h3⟩, _⟩, h5⟩; exact ⟨h1, ⟨h3, h2⟩, h5⟩
+            · rintro ⟨h1, ⟨h3, h2⟩, h5⟩; exact ⟨⟨⟨⟨h1, h2⟩, h3⟩, h2⟩, h5⟩
+          · rw [List.append_assoc]
+            apply List.nodup_append.mpr
+            refine ⟨?_, ?_, ?_⟩
+            · exact Walk.nodup_reverse' okl.nodup
+            · simp only [List.singleton_append, List.nodup_cons]
+              exact ⟨fun hin => (r_in seed hin).2.1 rfl, okr.nodup⟩
+            · intro a ha b hb
+              simp only [List.mem_reverse] at ha
+              simp only [List.singleton_append, List.mem_cons] at hb
+              rcases hb with rfl | hb
+              · exact fun e => (l_in a ha).2 e
+              · exact fun e => (r_in b hb).2.2 (e ▸ ha)
+        · simp at h
+
+/-- the loop of `compress_graph`: every output node merges only available input nodes, and no input node is merged twice -/
+theorem compressLoop_ok (g : G D) (st : Bool) (join : D → D → Bool) (reduce : D → D → D) :
+    ∀ (is avail : List Nat) (out : List (Node D × List (Nat × Dir))),
+      compressLoop g st join reduce is avail = some out →
+      (∀ np ∈ out, ∀ i ∈ ids np.2, i ∈ avail) ∧ (out.map fun np => ids np.2).flatten.Nodup := by
+  intro is
+  induction is with
+  | nil => intro avail out h; simp only [compressLoop, Option.some.injEq] at h; subst h; simp
+  | cons i is ih =>
+    intro avail out h
+    simp only [compressLoop] at h
+    by_cases hi : i ∈ avail
+    · simp only [hi, if_true] at h
+      cases hb : buildNode g st join reduce avail i with
+      | none => simp [hb] at h
+      | some r =>
+        obtain ⟨nd, path, a'⟩ := r
+        simp only [hb] at h
+        cases hrest : compressLoop g st join reduce is a' with
+        | none => simp [hrest] at h
+        | some rest =>
+          simp only [hrest, Option.some.injEq] at h
+          subst h
+          obtain ⟨b1, b2, b3, _⟩ := buildNode_ok g st join reduce avail i hi nd path a' hb
+          obtain ⟨r1, r2⟩ := ih a' rest hrest
+          refine ⟨?_, ?_⟩
+          · intro np hnp j hj
+            rcases List.mem_cons.mp hnp with rfl | hnp
+            · exact b1 j hj
+            · exact ((b2 j).mp (r1 np hnp j hj)).1
+          · simp only [List.map_cons, List.flatten_cons]
+            apply List.nodup_append.mpr
+            refine ⟨b3, r2, ?_⟩
+            intro a ha b hb' e
+            subst e
+            obtain ⟨l, hl, hal⟩ := List.mem_flatten.mp hb'
+            obtain ⟨np, hnp, rfl⟩ := List.mem_map.mp hl
+            exact ((b2 a).mp (r1 np hnp a hal)).2 ha
+    · simp only [hi, if_false] at h
+      exact ih avail out h
+
+/-- **C09 (censoring).** No output node of `compress_graph` merges a censored node, and every input node is merged into
+    at most one output node. -/
+theorem C09_censored_excluded (st : Bool) (g : G D) (join : D → D → Bool) (reduce : D → D → D) (censor : List Nat)
+    (g' : G D) (paths : List (List (Nat × Dir))) (h : compressGraph st g join reduce censor = some (g', paths)) :
+    (∀ p ∈ paths, ∀ i ∈ ids p, i ∉ censor ∧ i < g.nodes.length) ∧ (paths.map ids).flatten.Nodup := by
+  unfold compressGraph at h
+  dsimp only at h
+  split at h
+  · simp at h
+  · rename_i nodes hl
+    simp only [Option.some.injEq, Prod.mk.injEq] at h
+    obtain ⟨_, rfl⟩ := h
+    obtain ⟨a, b⟩ := compressLoop_ok _ st join reduce _ _ nodes hl
+    refine ⟨?_, by simpa [List.map_map, Function.comp_def] using b⟩
+    intro p hp i hi
+    obtain ⟨np, hnp, rfl⟩ := List.mem_map.mp hp
+    have := a np hnp i hi
+    simp only [List.mem_filter, List.mem_range, Bool.not_eq_true', List.contains_eq_mem, decide_eq_false_iff_not] at this
+    exact ⟨this.2, this.1⟩
+
+end CompressGraph
